@@ -169,11 +169,12 @@ func applyOwnershipState(w *World, g *OSGen, cl *store.Cluster, strategy string,
 // IntruderAgent is a third party that creates, re-owns, re-labels, edits and
 // deletes objects PKO manages or is about to manage.
 type IntruderAgent struct {
-	G        *OSGen
-	Mode     string // "boundary": only while no PKO pass is in flight; "granular": any time
-	Budget   int
-	Finalize bool // may put and remove a blocking finalizer
-	Targets  []intruderTarget
+	G         *OSGen
+	Mode      string // "boundary": only while no PKO pass is in flight; "granular": any time
+	Budget    int
+	Finalize  bool // may put and remove a blocking finalizer
+	DriftOnly bool // only edit managed fields / delete / block (no ownership changes, no foreign fields)
+	Targets   []intruderTarget
 }
 
 type intruderTarget struct {
@@ -229,6 +230,45 @@ func (a *IntruderAgent) act(w *World) {
 	tp := w.TP("intruder", cl)
 	draw := func(n int, label string) int { return w.Sch.Intn(n, "intruder-"+label) }
 	cur, exists := cl.Objs[k]
+	if a.DriftOnly {
+		if !exists {
+			return
+		}
+		// drift is restricted to objects that are actively managed: controlled by a
+		// PKO owner that is neither paused (hands-off by design) nor being torn down
+		if !w.activelyManaged(t.cluster, cur) {
+			return
+		}
+		switch draw(4, "drift-op") {
+		case 0, 1:
+			w.Stats.Probe("drift-edit")
+			w.Tracef("DRIFT edit %s", k)
+			_, _ = tp.Mutate(k, func(o store.Obj) {
+				if d, ok := o["data"].(map[string]any); ok {
+					d["k"] = "drifted"
+				}
+				if sp, ok := o["spec"].(map[string]any); ok {
+					if _, has := sp["replicas"]; has {
+						sp["replicas"] = int64(7)
+					}
+					if _, has := sp["size"]; has {
+						sp["size"] = int64(77)
+					}
+				}
+			})
+		case 2:
+			w.Stats.Probe("drift-delete")
+			w.Tracef("DRIFT delete %s", k)
+			_ = tp.Delete(k, "Background")
+		case 3:
+			if a.Finalize {
+				w.Stats.Probe("drift-block")
+				w.Tracef("DRIFT block %s", k)
+				_, _ = tp.Mutate(k, func(o store.Obj) { addFinalizer(o, "sim.example/block") })
+			}
+		}
+		return
+	}
 	if !exists {
 		o := store.Copy(t.obj)
 		desc := applyOwnershipState(w, a.G, cl, t.strategy, o, draw)
@@ -304,4 +344,36 @@ func (a *IntruderAgent) act(w *World) {
 		w.Tracef("INTRUDER unblock %s", k)
 		_, _ = tp.Mutate(k, func(o store.Obj) { removeFinalizer(o, "sim.example/block") })
 	}
+}
+
+// activelyManaged reports whether obj is controlled by an ObjectSet or
+// ObjectSetPhase that is expected to repair it (not paused, archived or deleting).
+func (w *World) activelyManaged(cluster string, obj store.Obj) bool {
+	for _, st := range []string{"native", "annotation"} {
+		for _, c := range Controllers(obj, st) {
+			if c.Group != PKOGroup {
+				continue
+			}
+			for _, ns := range []string{store.Str(obj, "metadata", "namespace"), ""} {
+				owner, ok := w.Mgmt.Objs[store.Key{Group: PKOGroup, Kind: c.Kind, Namespace: ns, Name: c.Name}]
+				if !ok || store.Str(owner, "metadata", "uid") != c.UID {
+					continue
+				}
+				if store.Deleting(owner) || isSpecPaused(owner) || isTeardownOwner(owner) {
+					return false
+				}
+				if isPhaseKind(c.Kind) {
+					for _, pc := range Controllers(owner, "native") {
+						if set, ok := w.Mgmt.Objs[store.Key{Group: PKOGroup, Kind: pc.Kind, Namespace: ns, Name: pc.Name}]; ok {
+							if store.Deleting(set) || isSpecPaused(set) || isTeardownOwner(set) {
+								return false
+							}
+						}
+					}
+				}
+				return true
+			}
+		}
+	}
+	return false
 }
